@@ -6,6 +6,7 @@ import "oxverif/harness/core"
 var Targets = map[string]core.Target{
 	"C11": C11{},
 	"C06": C06{},
+	"C07": C07{},
 	"C08": C08{},
 	"C09": C09{},
 	"C10": C10{},
